@@ -176,7 +176,12 @@ class Program:
                     self.functions[sub.qualname] = sub
                     visit(ch, sub)
                 elif isinstance(ch, ast.ClassDef):
-                    continue
+                    # methods of a class defined inside a function (e.g. the native Optimizations mix-ins)
+                    for mth in ch.body:
+                        if isinstance(mth, (ast.FunctionDef, ast.AsyncFunctionDef)):
+                            sub = FuncInfo("%s.%s.%s" % (parent.qualname, ch.name, mth.name), mth, parent.module, cls=None, parent=parent)
+                            self.functions[sub.qualname] = sub
+                            visit(mth, sub)
                 else:
                     visit(ch, parent)
         visit(fi.node, fi)
